@@ -268,4 +268,5 @@ SUBS = [
         need={"cut-in-size-line": 1, "cut-in-chunk-data": 1, "cut-inside-terminating-crlf": 1, "cut-between-data-and-crlf": 1, "enc-gzip": 1, "enc-deflate": 1, "enc-compress": 1, "all_partitions": 1, "small-compression-window": 1},
         sample=_short,
     ),
+    __import__("pv.fuzz.campaign", fromlist=["make"]).make("C12", ("C12",), runs=(15000, 400000), shards=(4, 16)),
 ]
